@@ -351,6 +351,11 @@ class Run:
                     what, detail = self.problems[0]
                     p = self.write_replay(k, "obligation", "-", 0, f"{what}: {detail}", []); k += 1
                 viol_lines.append(f"VIOLATION property={self.pid} replay={p} no-failing-input-found")
+        # every listed open finding of this property gets its line, whether or not this run's schedules exhibited it
+        for kf in known:
+            line = f"KNOWN-FINDING: property={self.pid} {kf['what_fails']}"
+            if line not in known_lines:
+                known_lines.append(line + " [not exhibited by the schedules of this run]")
         self.write_evidence(results, oracle, div, viol_lines, known_lines, searched, extra_out)
         for l in known_lines: print(l)
         for l in viol_lines: print(l)
